@@ -139,6 +139,7 @@ func buildNatives() map[string]nativeFn {
 	rt("IsConcrete", func(in *Interp, fn *ssa.Function, a []Value) Value {
 		return in.C.Bool(a[0].(*smt.Term).IsConst())
 	})
+	rt("RunID", func(in *Interp, fn *ssa.Function, a []Value) Value { return in.C.Const(64, 0) })
 	rt("Register", func(in *Interp, fn *ssa.Function, a []Value) Value { return nil })
 
 	// ---- standard library ----
